@@ -1,11 +1,11 @@
 SPECIFICATION Spec
 CONSTANTS
-  NilSendEOF = FALSE
+  NilSend = "either"
   Senders = {"s1"}
   Receivers = {"r1"}
   Cap = 1
   IsNil = FALSE
-  OpsPer = 2
+  OpsPer = 1
   SMeths = {"write", "scheck", "signore", "zero", "signal", "sproc"}
   RMeths = {"read", "rcheck", "ok", "force", "drop", "rignore", "rprod"}
   Modes = {"b", "nb"}
